@@ -85,7 +85,7 @@ theorem slotOk_stable {d : Dpb} {dir0 : Dir} {sr sr' : Raw} {f : FImg} {x k : Na
 theorem xent_stable {d : Dpb} {dir0 : Dir} {sr sr' : Raw} {f : FImg} {x : Nat} {e : Bytes} {b : Nat}
     (hne : ∀ k, k < slots d → (entryPtrs d e).getD k 0 = 0 ∨ (entryPtrs d e).getD k 0 ≠ b)
     (hs : ∀ p, p ≠ b → sr'.units[p]? = sr.units[p]?) (h : XEnt d dir0 sr f x e) : XEnt d dir0 sr' f x e :=
-  ⟨h.ex, h.s2, h.phys, h.lt, fun k hk => slotOk_stable (hne k hk) hs (h.ptr k hk), h.last⟩
+  ⟨h.ex, h.s2, h.phys, h.lt, fun k hk => slotOk_stable (hne k hk) hs (h.ptr k hk), h.last, h.full⟩
 
 /-- setting one pointer of one entry to a block nobody references keeps the pointers distinct -/
 theorem dist_set {d : Dpb} {sdir : Dir} {ptr k0 b : Nat} {fx' : Bytes} (hdist : PtrsDistinct d sdir)
